@@ -7,6 +7,7 @@ mod big;
 mod chainbuild;
 mod ctx;
 mod dump;
+mod explorer;
 mod hooks;
 mod blockgen;
 mod gen_insc;
@@ -74,6 +75,7 @@ fn main() {
     "C34" => props::c31::run_c34(&ctx, &mut rep),
     "C32" => props::c32::run(&ctx, &mut rep),
     "C33" => props::c33::run(&ctx, &mut rep),
+    "C18" => props::c18::run(&ctx, &mut rep),
     "C20" => props::c20::run(&ctx, &mut rep),
     "C27" => props::c27::run(&ctx, &mut rep),
     "C28" => props::c28::run(&ctx, &mut rep),
